@@ -272,6 +272,29 @@ def rw_range_map_collect(text: str) -> str:
   return text[:m.start()] + new + after[mc.end():]
 
 
+def rw_thread_heap(text: str, methods: List[str]) -> str:
+  """R16: the list heap is reached through raw pointers; in the unit it is explicit ghost-bearing state threaded through every call:
+       fn f(&self / &mut self, ARGS)          -> fn f(&self / &mut self, verif_heap: &mut ListHeap, ARGS)
+       RECV.m(ARGS) for m in `methods`        -> RECV.m(verif_heap, ARGS)          (RECV = any expression; the call text is otherwise unchanged)
+     Nothing else is touched."""
+  a = fn_anatomy(text)
+  params = text[a.params_open + 1:a.params_close]
+  m = re.match(r'^(\s*&\s*(?:mut\s+)?self\s*)(,?)(.*)$', params, flags=re.S)
+  if not m:
+    m2 = re.match(r'^(\s*)(.*)$', params, flags=re.S)
+    new_params = 'verif_heap: &mut ListHeap' + (', ' + params if params.strip() else '')
+  else:
+    rest = m.group(3)
+    new_params = m.group(1) + ', verif_heap: &mut ListHeap' + (',' + rest if rest.strip() else '')
+  head = text[:a.params_open + 1] + new_params + text[a.params_close:a.body_open + 1]
+  body = text[a.body_open + 1:a.body_close]
+  alt = '|'.join(re.escape(x) for x in sorted(methods, key=len, reverse=True))
+  def sub(mm):
+    return '.%s(verif_heap%s' % (mm.group(1), '' if mm.group(2) == ')' else ', ') + ('' if mm.group(2) != ')' else ')')
+  body = re.sub(r'\.\s*(%s)\s*\(\s*(\)|(?=[^\s)]))' % alt, sub, body)
+  return head + body + text[a.body_close:]
+
+
 def rw_mut_self(text: str) -> str:
   """R1: `fn f(mut self, ...) { B }` -> `fn f(self, ...) { let mut this = self; B[self:=this] }`"""
   a = fn_anatomy(text)
@@ -811,6 +834,7 @@ def build_unit(name: str, variant: Optional[str] = None, canary: bool = False) -
         elif rule == 'R1': new = rw_mut_self(new)
         elif rule == 'R4g': new = rw_option_tail(new)
         elif rule == 'R15': new = rw_trace_log(new)
+        elif rule == 'R16': new = rw_thread_heap(new, args['methods'])
         elif rule == 'R13m': new = rw_range_map_collect(new)
         elif rule == 'R3d': new = rw_drop_cfg_debug(new)
         elif rule == 'R2': new = rw_slice_match(new)
